@@ -19,6 +19,9 @@ class Registry:
             self.src[m] = txt
             t = ast.parse(txt)
             self.tree[m] = t
+            self.numpy_names = getattr(self, "numpy_names", {})
+            self.numpy_names[m] = {a.asname or a.name for node in t.body if isinstance(node, ast.ImportFrom) and node.module == "numpy"
+                                   for a in node.names}
             for node in t.body:
                 if isinstance(node, ast.FunctionDef):
                     self.funcs[f"dsw.{m}.{node.name}"] = (m, node)
